@@ -364,8 +364,9 @@ def run(spec, ctx):
         act = st.one_of(st.just(["drop"]), st.just(["dup"]), st.tuples(st.just("delay"), st.sampled_from([0.1, 0.75, 1.5, 3.0, 6.0])).map(list))
         plan_s = st.dictionaries(st.integers(0, 40).map(str), act, max_size=6)
         S = st.sampled_from([50, 128, 206])
-        cfg = st.tuples(S, st.integers(0, 4), st.integers(0, 4), st.integers(1, 8), st.integers(1, 8), st.integers(-3, 3), st.integers(-3, 3)).map(
+        cfg = st.tuples(S, st.integers(0, 4), st.integers(0, 4), st.integers(1, 8), st.integers(1, 8), st.integers(-3, 3), st.integers(-3, 3),
+                        st.sampled_from([0.0, 0.0, 0.0, 0.7, 2.0])).map(
             lambda t: base_cfg(t[0], req_len=max(0, (txn.payload_for_total(t[1] * t[0]) or 0) + t[5]), rsp_len=max(0, (txn.payload_for_total(t[2] * t[0]) or 0) + t[6]),
-                               c_win=t[3], s_win=t[4]))
+                               c_win=t[3], s_win=t[4], **(dict(think=t[7]) if t[7] else {})))
         strat = st.tuples(cfg, plan_s).map(lambda t: dict(k="txn", cfg=t[0], plan=t[1]))
         ctx.for_all(strat, spec["n"])
